@@ -29,14 +29,21 @@ def build_mesh(c):
     n = len(sizes)
     unit = c.get("pos_unit", "cm")
     dens = 1.0 + np.arange(n, dtype=np.float64)
+    # special values in some cells: a pixel inside such a cell shows that value (inf is a value, not "no cell")
+    SPECIAL = {"inf": np.inf, "-inf": -np.inf, "fmax": np.finfo(np.float64).max, "denorm": 5e-324, "negzero": -0.0, "zero": 0.0, "neg": -3.5}
+    for k, name in enumerate(c.get("special", [])):
+        j = (2 * k + c.get("special_offset", 0)) % n
+        dens[j] = SPECIAL[name]
+    dens = dens.astype({"f4": np.float32, "i8": np.int64, "i4": np.int32}.get(c.get("dens_dtype"), np.float64))
     vel = np.stack([10.0 + np.arange(n), 200.0 - 3.0 * np.arange(n), -50.0 + 7.0 * np.arange(n)], axis=1)[:, : tree.ndim]
     mesh = osyris.Datagroup()
     mesh["position"] = osyris.Vector(*[centres[:, a].copy() for a in range(tree.ndim)], unit=unit)
     mesh["dx"] = osyris.Array(sizes.copy(), unit=unit)
     mesh["density"] = osyris.Array(dens.copy(), unit="g/cm**3")
     mesh["velocity"] = osyris.Vector(*[vel[:, a].copy() for a in range(tree.ndim)], unit="km/s")
-    mesh["mass"] = osyris.Array(dens * sizes**tree.ndim, unit="g")
-    return mesh, centres, sizes, {"density": dens, "velocity": vel}
+    with np.errstate(all="ignore"):
+        mesh["mass"] = osyris.Array(dens.astype(np.float64) * sizes**tree.ndim, unit="g")
+    return mesh, centres, sizes, {"density": dens.astype(np.float64), "velocity": vel}
 
 
 def direction_object(spec):
@@ -71,7 +78,9 @@ def call_map(c, mesh, extra_layers=False):
         kw["dz"] = c["dz"] * box * f * osyris.units(wu)
     origin = None
     if c.get("origin") is not None:
-        origin = osyris.Vector(*[float(x) * box for x in c["origin"]], unit=unit)
+        ou = c.get("origin_unit", unit)  # the same point, possibly written in another unit than the positions
+        fo = M2.unit_info(osyris.units(unit))[0] / M2.unit_info(osyris.units(ou))[0]
+        origin = osyris.Vector(*[float(x) * box * fo for x in c["origin"]], unit=ou)
         kw["origin"] = origin
     if c.get("resolution") is not None:
         r = c["resolution"]
